@@ -21,3 +21,57 @@ Proof.
   - destruct (parse_ids ids); discriminate.
   - destruct (write_extcoms l); discriminate.
 Qed.
+
+(* ------------------------------------------------------------------ *)
+(* Witnesses against attr_from_api as it stood before the fix commits
+   ([from_api_v0]); each was replayed on the unchanged code through
+   harness/daemon/convert_hx.rs (see known_findings.json C17-1..C17-3).   *)
+Definition v6none (_ : list N) : option N := None.
+Definition v6noprint (_ : N) : list N := [].
+
+(* Unknown{type = 5} builds a LOCAL_PREF held as bytes *)
+Lemma C17_v0_from_api_preserves_wf_refuted :
+  exists x a, api_in_range x /\ from_api_v0 v6none x = Ok (Some a) /\ ~ wf_attr a.
+Proof.
+  exists (AUnknown 0 5 [1]), (mkAttr 5 64 (DBin [1])).
+  split; [cbn; repeat split; try lia; repeat constructor; lia|].
+  split; [reflexivity|].
+  intros [_ [_ [_ Hd]]]. cbn in Hd. exact Hd.
+Qed.
+
+(* ... and inserting it next to any other path panics the comparator *)
+Lemma C17_v0_accepted_value_panics_comparator :
+  exists x a t, from_api_v0 v6none x = Ok (Some a)
+                /\ rib_cmp (local_path_attrs [a]) 2 competitor 1 = Panic t.
+Proof. exists (AUnknown 0 5 [1]), (mkAttr 5 64 (DBin [1])), P_VALUE_UNWRAP. split; reflexivity. Qed.
+
+(* an AS_PATH segment of type 5 is accepted and as_path_length hits unreachable!() *)
+Lemma C17_v0_accepted_as_path_panics_length :
+  exists x a, from_api_v0 v6none x = Ok (Some a) /\ as_path_length a = Panic P_UNREACHABLE.
+Proof. exists (AAsPath [(5%Z, [1])]), (mkAttr 2 64 (DBin [5; 1; 0; 0; 0; 1])). split; reflexivity. Qed.
+
+(* 256 numbers in one segment: the count byte wraps to 0 and the numbers are
+   re-read as segment headers *)
+Lemma C17_v0_overlong_segment_panics_length :
+  exists x a, from_api_v0 v6none x = Ok (Some a) /\ as_path_length a = Panic P_UNREACHABLE.
+Proof.
+  exists (AAsPath [(2%Z, repeat 83886080 256)]).
+  eexists. split; [vm_compute; reflexivity|]. vm_compute. reflexivity.
+Qed.
+
+(* ORIGIN 3 accepted; an unparsable next hop yields an empty NEXT_HOP whose
+   listing panics *)
+Lemma C17_v0_origin_out_of_range_accepted :
+  from_api_v0 v6none (AOrigin 3) = Ok (Some (mkAttr 1 64 (DVal 3))).
+Proof. reflexivity. Qed.
+Lemma C17_v0_bad_next_hop_accepted_and_unlistable :
+  exists a, from_api_v0 v6none (ANextHop [120]) = Ok (Some a) /\ to_api v6noprint a = Panic P_READ_EOF.
+Proof. exists (mkAttr 3 64 (DBin [])). split; reflexivity. Qed.
+
+(* an unknown optional transitive attribute held opaque cannot be given back *)
+Lemma C17_v0_opaque_roundtrip_refuted :
+  exists a, wf_attr a /\ roundtrip_v0 v6noprint v6none a = Ok None.
+Proof.
+  exists (new_opaque 99 192 [1; 2]). split; [|reflexivity].
+  repeat split; cbn; try lia. repeat constructor; lia.
+Qed.
